@@ -16,12 +16,13 @@ func init() {
 		ID:    "C08",
 		Title: "PBF skip flags and filters select an unmodified subsequence",
 		Explanation: "Structural necessary conditions, decided on every path of the group/dense decoding functions; anchors are roles from the typed decoding model (which read executes under which field number of the PrimitiveGroup message, which field is the object slice the decode entry point returns), conditions are decided through guard facts and finite-domain evaluation, static calls inside the package are followed: " +
-			"(O1) ownership typestate: an element that has been appended to the block's object slice (directly or by a helper) is never written through again (directly, by re-slicing its slices, or by a callee, which is executed on its own CFG) until the variable has been re-pointed at a fresh allocation — a may-state fixpoint over the CFG, loop heads included; " +
+			"(O1) ownership typestate, one analysis per element slot (a local or parameter of pointer-to-element type, or a struct field of the package holding the element being decoded: field-based, so helpers that receive the struct by pointer work on the same slot; locals that only receive the slot's current element, also as the result of a decoding helper that hands its parameter back, are aliases of it; exits of a helper that certainly return an error are kept apart from its normal exits so that `if err != nil { return }` in the caller is understood): an element that has been appended to the block's object slice (directly or by a helper) is never written through again (directly, by re-slicing its slices, or by a callee, which is executed on its own CFG) until the variable has been re-pointed at a fresh allocation — a may-state fixpoint over the CFG, loop heads included; " +
 			"(O2) a rejected element never carries fields into the next one: an element that was decoded into and not handed to the consumer is, before anything is decoded into it in a later iteration of the element loop, completely reset by assigning a whole struct literal (in place or in a helper) whose values are constants (Visible: true among them) or [:0] re-slices of that element's own slice of the same field; " +
-			"(O3) the message data of group field 2/3/4 (dense, ways, relations in the descriptor) is read only under a false SkipNodes/SkipWays/SkipRelations respectively and under no other condition; the elements of a kind are appended iff that kind's filter is nil or accepts the appended element (decision table evaluated on the CFG), the filter being applied after the element was decoded; every cycle of the group loop consumes the current field or leaves; " +
+			"(O3) the message data of group field 2/3/4 (dense, ways, relations in the descriptor) is read only under a false SkipNodes/SkipWays/SkipRelations respectively and under no other condition (the flag may be tested directly, through a local, or looked up in a constant table indexed by the field number, in which case the entry of the field in question is what is judged); the elements of a kind are appended iff that kind's filter is nil or accepts the appended element (decision table evaluated on the CFG), the filter being applied after the element was decoded; a field the decoder does not support is rejected by a return of an error or by recording an error that every path then returns; every cycle of the group loop consumes the current field or leaves (a loop condition that is false because an error was recorded leaves); " +
 			"(O4) skip flags and filters are never written inside the package; " +
 			"(O5) slices of element parts (tags, way nodes, members) kept for reuse are only ever re-sliced to [:0], extended by append of whole elements, or replaced by a zeroed make (possibly through an allocation helper), so stale contents of a rejected element cannot reappear in a later one. " +
 			"(O6) every cycle of the loop in which a worker receives blocks sends one result pair (or is taken under cancellation): the result of a fully skipped or fully rejected block is not dropped, so the round-robin serializer stays in step and the selection is a subsequence in file order. " +
+			"(O7) a skip flag decides about the elements of its own kind and about nothing else: its value (followed through locals, struct fields, function results, arguments and boolean accumulations, including results chosen under a branch that depends on it) only reaches branch conditions that are evaluated while the fields of a primitive group are scanned, or conditions that can only hold when every skip flag is set; a flag that ends the scan of a block, bypasses a group or drops a result turns 'some element here is skipped' into 'everything here is skipped'. " +
 			"NOT decided: value equality with the unfiltered scan (needs C01), what user filters do with the element they are handed.",
 		Assumptions: []string{"go/types, go/cfg (x/tools v0.29.0)", "append on the block's object slice stores the pointer (no copy of the element)", "user filter functions do not retain or mutate rejected elements"},
 		LevelText:   "Structural necessary conditions of 'returned objects are never modified afterwards although rejected memory is reused' and of the skip/filter selection: a may-escaped typestate analysis over the decoding functions' CFGs plus the flag/kind/filter wiring table.",
@@ -34,10 +35,11 @@ func init() {
 			{ID: "O3", Floor: 8, Doc: "skip flag, decoded kind and filter agree per group field; skipped fields are passed over", Run: c08O3},
 			{ID: "O4", Floor: 6, Doc: "flags and filters are read-only inside the package", Run: c08O4},
 			{ID: "O6", Floor: 1, Doc: "a worker forwards one result per block it receives, however few elements the skip flags and filters leave", Run: c08O6},
+			{ID: "O7", Floor: 1, Doc: "the value of a skip flag only reaches conditions that decide about the current field of a primitive group (or that hold only when every flag is set): no block, group or result is dropped because something in it is of a skipped kind", Run: c08O7},
 			{ID: "O5", Floor: 5, Doc: "reused element storage is never re-exposed: element slices are only re-sliced to [:0], grown by append of whole elements, or replaced by make", Run: c08O5},
 		},
-		Benign: append(append(append(append([]core.Mutant{}, c08Benign...), c08Benign2...), c08Benign3...), c08Benign4...),
-		Mutants: []core.Mutant{
+		Benign: append(append(append(append(append(append([]core.Mutant{}, c08Benign...), c08Benign2...), c08Benign3...), c08Benign4...), c08Benign5...), c08Benign6...),
+		Mutants: append(append(append([]core.Mutant{}, c08Mutants2...), c08Mutants3...), []core.Mutant{
 			{Name: "way-not-renewed-after-append", File: "osmpbf/decode_data.go", Find: "\t\t\t\tdec.q = append(dec.q, way)\n\t\t\t\tway = &osm.Way{Visible: true}\n", Replace: "\t\t\t\tdec.q = append(dec.q, way)\n", ExpectRule: "O1", ExpectConstruct: "way"},
 			{Name: "relation-renewed-before-append-only", File: "osmpbf/decode_data.go", Find: "\t\t\t\tdec.q = append(dec.q, relation)\n\t\t\t\trelation = &osm.Relation{Visible: true}\n", Replace: "\t\t\t\tdec.q = append(dec.q, relation)\n\t\t\t\trelation.Tags = relation.Tags[:0]\n\t\t\t\trelation = &osm.Relation{Visible: true}\n", ExpectRule: "O1", ExpectConstruct: "relation"},
 			{Name: "node-reused-after-append", File: "osmpbf/decode_data.go", Find: "\t\t\tdec.q = append(dec.q, n)\n\t\t\tn = &osm.Node{Visible: true}\n", Replace: "\t\t\tdec.q = append(dec.q, n)\n\t\t\tn = &osm.Node{Visible: true, Tags: n.Tags[:0]}\n", ExpectRule: "O1", ExpectConstruct: "n"},
@@ -54,7 +56,7 @@ func init() {
 			{Name: "tags-regrown", File: "osmpbf/decode_data.go", Find: "\t\t\tif cap(n.Tags) < count/2 {\n\t\t\t\tn.Tags = make(osm.Tags, 0, count/2)\n\t\t\t}", Replace: "\t\t\tif cap(n.Tags) < count/2 {\n\t\t\t\tn.Tags = make(osm.Tags, 0, count/2)\n\t\t\t} else if count == 0 {\n\t\t\t\tn.Tags = n.Tags[:cap(n.Tags)]\n\t\t\t}", ExpectRule: "O5", ExpectConstruct: "extractDenseNodes"},
 			{Name: "empty-block-result-dropped", File: "osmpbf/decode.go", Find: "\t\t\t\t\tobjects, err := dd.Decode(p.Blob)\n", Replace: "\t\t\t\t\tobjects, err := dd.Decode(p.Blob)\n\t\t\t\t\tif err == nil && len(objects) == 0 {\n\t\t\t\t\t\tcontinue\n\t\t\t\t\t}\n", ExpectRule: "O6", ExpectConstruct: "one result per block"},
 			{Name: "flag-written", File: "osmpbf/decode_data.go", Find: "\tway := &osm.Way{Visible: true}\n\trelation := &osm.Relation{Visible: true}\n", Replace: "\tway := &osm.Way{Visible: true}\n\trelation := &osm.Relation{Visible: true}\n\tif dec.scanner.FilterRelation == nil {\n\t\tdec.scanner.SkipRelations = false\n\t}\n", ExpectRule: "O4", ExpectConstruct: "SkipRelations"},
-		},
+		}...),
 	})
 }
 
@@ -70,6 +72,58 @@ func c08Tracked(r *core.R, m *pbfModel, qField *types.Var) []c08Elem {
 	info := m.info
 	fl := &c08Flow{r: r, m: m, info: info, q: qField, memo: map[string]int{}, stack: map[string]bool{}}
 	var out []c08Elem
+	// slots that are struct fields, analysed from the outermost worker functions that mention them
+	slots := c08FieldSlots(m)
+	for _, fld := range slots {
+		var direct []*FuncInfo
+		for _, fi := range c01RoleFuncs(m, "worker") {
+			hit := false
+			ast.Inspect(fi.Decl.Body, func(n ast.Node) bool {
+				switch y := n.(type) {
+				case *ast.SelectorExpr:
+					if fieldOf(info, y) == fld {
+						hit = true
+					}
+				case *ast.KeyValueExpr:
+					if id, ok := y.Key.(*ast.Ident); ok && info.Uses[id] == fld {
+						hit = true
+					}
+				}
+				return !hit
+			})
+			if hit {
+				direct = append(direct, fi)
+			}
+		}
+		for _, a := range direct {
+			inner := false
+			for _, b := range direct {
+				if a == b {
+					continue
+				}
+				for _, g := range c01Reachable(r.P, b) {
+					if g.Obj == a.Obj {
+						inner = true
+					}
+				}
+			}
+			if inner {
+				continue
+			}
+			f := c01FnOf(r.P, a)
+			esc := false
+			for _, b := range f.g.Blocks {
+				for _, nd := range b.Nodes {
+					if b.Live && !esc && fl.escapes(f, nd, fld, 0) {
+						esc = true
+					}
+				}
+			}
+			if esc {
+				out = append(out, c08Elem{a, fld})
+			}
+		}
+	}
 	for _, fi := range c01RoleFuncs(m, "worker") {
 		f := c01FnOf(r.P, fi)
 		seen := map[types.Object]bool{}
@@ -90,6 +144,31 @@ func c08Tracked(r *core.R, m *pbfModel, qField *types.Var) []c08Elem {
 				return true
 			}
 			seen[o] = true
+			// a local that only ever holds the current element of a field slot is analysed with that slot
+			for _, fld := range slots {
+				if fl.aliases(f, fld)[o] {
+					return true
+				}
+			}
+			// ... or of a parameter / another local of the function (`w, err := decode(d, scratch)`)
+			isAlias := false
+			ast.Inspect(fi.Decl, func(y ast.Node) bool {
+				id2, ok := y.(*ast.Ident)
+				if !ok || isAlias {
+					return !isAlias
+				}
+				o2, isVar := info.Defs[id2].(*types.Var)
+				if !isVar || o2 == o || o2.IsField() || !types.Identical(o2.Type(), o.Type()) {
+					return true
+				}
+				if fl.aliases(f, o2)[o] && !fl.aliases(f, o)[o2] {
+					isAlias = true
+				}
+				return true
+			})
+			if isAlias {
+				return true
+			}
 			for _, b := range f.g.Blocks {
 				if !b.Live {
 					continue
@@ -216,6 +295,9 @@ func c08Analyse(r *core.R, m *pbfModel, q *types.Var) []c08Result {
 		if c01ParamIndex(m.info, el.fi, el.obj) >= 0 {
 			entry = c08C | c08D
 		}
+		if v, isVar := el.obj.(*types.Var); isVar && v.IsField() {
+			entry = c08C | c08D // whatever the struct held when the function was entered
+		}
 		fl.run(el.fi, el.obj, entry, true, 0)
 		res = append(res, c08Result{el: el, o1: fl.o1, o1pos: fl.o1pos, o2: fl.o2, o2pos: fl.o2pos, nblk: fl.nblk})
 	}
@@ -313,6 +395,11 @@ func c08IsFreshAlloc(info *types.Info, e ast.Expr, x types.Object) bool {
 
 // c08ReturnsParam: call f(.., x, ..) where every return of f yields that parameter (or a fresh allocation when it was nil) as first result.
 func c08ReturnsParam(m *pbfModel, call *ast.CallExpr, x types.Object) bool {
+	return c08ReturnsParamP(m, call, func(a ast.Expr) bool { return objOf(m.info, a) == x })
+}
+
+// c08ReturnsParamP is c08ReturnsParam for an argument recognised by a predicate.
+func c08ReturnsParamP(m *pbfModel, call *ast.CallExpr, isArg func(ast.Expr) bool) bool {
 	info := m.info
 	fn := callee(info, call)
 	if fn == nil || fn.Pkg() != m.pk.Types {
@@ -320,7 +407,7 @@ func c08ReturnsParam(m *pbfModel, call *ast.CallExpr, x types.Object) bool {
 	}
 	idx := -1
 	for i, a := range call.Args {
-		if objOf(info, a) == x {
+		if isArg(a) {
 			idx = i
 		}
 	}
@@ -339,10 +426,17 @@ func c08ReturnsParam(m *pbfModel, call *ast.CallExpr, x types.Object) bool {
 		}
 	}
 	ok := po != nil
+	if !ok || c08RetBusy[po] {
+		return false
+	}
+	c08RetBusy[po] = true
+	defer delete(c08RetBusy, po)
+	// locals of the callee that only ever hold the parameter's element
+	al := (&c08Flow{m: m, info: info, r: &core.R{P: m.p}}).aliases(c01FnOf(m.p, fi), po)
 	ast.Inspect(fi.Decl.Body, func(n ast.Node) bool {
 		if ret, isRet := n.(*ast.ReturnStmt); isRet && len(ret.Results) > 0 {
 			r0 := ast.Unparen(ret.Results[0])
-			if id, isId := r0.(*ast.Ident); isId && (id.Name == "nil" || info.Uses[id] == po) {
+			if id, isId := r0.(*ast.Ident); isId && (id.Name == "nil" || info.Uses[id] == po || al[info.Uses[id]]) {
 				return true
 			}
 			if c08IsFreshAlloc(info, r0, po) {
@@ -600,3 +694,6 @@ func c08IsZeroedMake(m *pbfModel, call *ast.CallExpr, depth int) bool {
 	})
 	return ok && n > 0
 }
+
+// c08RetBusy guards c08ReturnsParamP against recursion through mutually recursive helpers.
+var c08RetBusy = map[types.Object]bool{}
